@@ -23,6 +23,8 @@ pub fn after_run(w: &mut World, ops: &[Op]) -> Res {
         "C10" => c10(w, ops),
         "C18" => c18(w, ops),
         "C17" => c17(w),
+        "C07" => c07(w, ops),
+        "C02" => c02(w, ops),
         _ => Ok(()),
     }
 }
@@ -801,6 +803,172 @@ fn c17(w: &mut World) -> Res {
     w.bump(&format!("probe.backend.{}", w.cfg.backend));
     if let Err(cv) = r {
         viol!(w, "adapter-contract", cv.class, "{}", cv.detail);
+    }
+    Ok(())
+}
+
+// ------------------------------------------------------------------------------------ C07
+
+/// A world that has executed `ops` with the oracles of `prop` on.
+fn fork_as(cfg: &RunCfg, prop: &str, ops: &[Op]) -> Option<World> {
+    let mut c = cfg.clone();
+    c.prop = prop.to_string();
+    let mut w = World::new(c).ok()?;
+    for op in ops {
+        if w.exec(op).is_err() {
+            return None;
+        }
+    }
+    Some(w)
+}
+
+/// Every choosable leaf of the conflicted state a history ends in: fork once per (object, live
+/// leaf), resolve in favour of it, commit, let the resolution propagate.
+fn c07(w: &mut World, ops: &[Op]) -> Res {
+    let cfg = w.cfg.clone();
+    // the first replica that ends the history with something in conflict and nothing staged
+    let mut target = None;
+    for r in 0..w.replicas.len() {
+        if w.replicas[r].time_travel || w.replicas[r].live.is_none() {
+            continue;
+        }
+        let d = match w.digest_of(r) {
+            Ok(d) => d,
+            Err(_) => continue,
+        };
+        let conf: Vec<String> = d["in_conflict"].as_array().map(|a| a.iter().filter_map(|x| x.as_str().map(|s| s.to_string())).collect()).unwrap_or_default();
+        if !conf.is_empty() {
+            target = Some((r, conf, d));
+            break;
+        }
+    }
+    let (r, conf, d) = match target {
+        Some(t) => t,
+        None => return Ok(()),
+    };
+    w.bump("enum.c07_conflicted_end_states");
+    for (i, uuid) in conf.iter().enumerate().take(3) {
+        let nleaves = d["conflicts"].get(uuid).and_then(|c| c.as_array()).map_or(0, |a| a.len()) + 1;
+        for j in 0..nleaves.min(5) {
+            let mut wf = match fork_as(&cfg, &w.prop, ops) {
+                Some(x) => x,
+                None => return Ok(()),
+            };
+            wf.step = w.step;
+            w.bump("enum.c07_leaf_forks");
+            let steps = [Op::Resolve { r, obj_sel: i as u32, leaf_sel: j as u32 }, Op::Commit { r, info: None }, Op::Converge { commit: true }];
+            for o in &steps {
+                match wf.exec(o) {
+                    Ok(()) => {}
+                    Err(Stop::Violation(mut v)) => {
+                        v.detail = format!("fork resolving {} in favour of its leaf #{} (of {}) on replica {}, then commit and exchange: {}", uuid, j, nleaves, r, v.detail);
+                        return Err(Stop::Violation(v));
+                    }
+                    Err(Stop::Inconclusive(_)) => break,
+                }
+            }
+        }
+    }
+    crate::seam::install(cfg.hash_seed, cfg.order_seed, cfg.cache_ad, cfg.cache_data);
+    Ok(())
+}
+
+// ------------------------------------------------------------------------------------ C02
+
+fn permutations(n: usize) -> Vec<Vec<usize>> {
+    fn rec(cur: &mut Vec<usize>, used: &mut Vec<bool>, n: usize, out: &mut Vec<Vec<usize>>) {
+        if cur.len() == n {
+            out.push(cur.clone());
+            return;
+        }
+        for i in 0..n {
+            if !used[i] {
+                used[i] = true;
+                cur.push(i);
+                rec(cur, used, n, out);
+                cur.pop();
+                used[i] = false;
+            }
+        }
+    }
+    let mut out = vec![];
+    rec(&mut vec![], &mut vec![false; n], n, &mut out);
+    out
+}
+
+/// Every prefix of every permutation: the newest k files of the richest store are delivered to a
+/// replica that holds the rest, in all k! orders, with a refresh after each file.
+fn c02(w: &mut World, _ops: &[Op]) -> Res {
+    if cfg!(feature = "real") {
+        return Ok(());
+    }
+    let thorough = std::env::var("VERIF_TIER").map_or(false, |t| t == "thorough");
+    // a quarter of the quick runs, all thorough runs
+    if !thorough && w.cfg.seed % 4 != 0 {
+        return Ok(());
+    }
+    let cfg = w.cfg.clone();
+    let disks = w.disks();
+    let items = match disks.iter().max_by_key(|d| d.len()) {
+        Some(d) if d.len() >= 3 => d.clone(),
+        _ => return Ok(()),
+    };
+    let st = RefState::from_items(&items);
+    // the k late files: walk back from the heads (blocks with their packs)
+    let k = if thorough { 5 } else { 4 };
+    let mut late: Vec<String> = vec![];
+    let mut blocks: Vec<&String> = st.complete.iter().collect();
+    blocks.sort_by_key(|b| std::cmp::Reverse(st.blocks[*b].idx));
+    for b in blocks {
+        for key in std::iter::once(format!("{}.delta", b)).chain(st.blocks[b].packs.iter().map(|p| format!("{}.pack", p))) {
+            if late.len() < k && items.contains_key(&key) && !late.contains(&key) {
+                late.push(key);
+            }
+        }
+    }
+    if late.len() < 2 {
+        return Ok(());
+    }
+    let base: Items = items.iter().filter(|(key, _)| !late.contains(key)).map(|(a, b)| (a.clone(), b.clone())).collect();
+    w.bump("enum.c02_permutation_sets");
+    for perm in permutations(late.len()) {
+        let disk = DiskRef::from_items(base.clone(), cfg.list_seed ^ 0x2);
+        let store = disk.store();
+        let mut m = match guard(|| Melda::new(store).map_err(|e| e.to_string())) {
+            Ok(Ok(m)) => m,
+            _ => return Ok(()),
+        };
+        w.bump("enum.c02_permutations");
+        for (n, pi) in perm.iter().enumerate() {
+            let key = &late[*pi];
+            disk.put(key, &items[key]);
+            let what = format!("delivery order {:?}, after file {} of {} ({})", perm.iter().map(|i| &late[*i][..late[*i].len().min(14)]).collect::<Vec<_>>(), n + 1, late.len(), key);
+            match guard(|| m.refresh().map_err(|e| e.to_string())) {
+                Ok(Ok(())) => {}
+                Ok(Err(e)) => viol!(w, "refresh-succeeds", "perm-refresh-err", "{}: refresh failed on undamaged storage: {}", what, e),
+                Err(c) => viol!(w, "refresh-succeeds", format!("perm-refresh-{}", c.class()), "{}: refresh does not return: {}", what, c.text()),
+            }
+            w.bump("enum.c02_prefixes");
+            let now = disk.items();
+            let stn = RefState::from_items(&now);
+            let applied: BTreeSet<String> = api::block_status(&m).into_iter().filter(|(_, s)| s == "applied").map(|(b, _)| b).collect();
+            if applied != stn.complete {
+                viol!(w, "applied-equals-complete", if applied.difference(&stn.complete).next().is_some() { "perm-applied-incomplete-block" } else { "perm-complete-block-held-back" },
+                    "{}: applied {:?} but causally complete are {:?}", what, applied, stn.complete);
+            }
+            let d = match digest(&m) {
+                Ok(d) => d,
+                Err(c) => viol!(w, "refresh-succeeds", format!("perm-read-{}", c.class()), "{}: reading does not return: {}", what, c.text()),
+            };
+            let mut wx = World::new_empty(cfg.clone());
+            wx.prop = w.prop.clone();
+            wx.step = w.step;
+            if let Err(Stop::Violation(mut v)) = wx.compare_with_ref(0, &d, &stn, "delivery") {
+                v.class = format!("perm-{}", v.class);
+                v.detail = format!("{}: {}", what, v.detail);
+                return Err(Stop::Violation(v));
+            }
+        }
     }
     Ok(())
 }
